@@ -167,7 +167,8 @@ func (propC06) Execute(pp any, x *X) *Violation {
 	})
 	parallel := false
 	for _, st := range w.SiteStats() {
-		if st.Name == "lossy.VP8Encoder.EncodeFrame#0" && st.Multi > 0 && p.Img.H >= 49 && p.Opt.Method >= 3 && p.Opt.TargetSize == 0 && p.Opt.TargetPSNR == 0 {
+		// the worker-count read inside encodeFrameParallel is only reached on the row-pipelined path
+		if st.Name == "lossy.VP8Encoder.encodeFrameParallel#0" && st.Hits > 0 {
 			parallel = true
 		}
 	}
